@@ -153,7 +153,7 @@ def comment_chars(rng, n, allow_nl):
     out = []
     for _ in range(n):
         k = rng.random()
-        if k < 0.07:
+        if k < 0.10:
             out.append(rng.choice("*/"))
         elif allow_nl and k < 0.12:
             out.append(rng.choice(["\n", "\r\n"]))
@@ -187,7 +187,9 @@ def block_comment(rng, depth, allow_nl):
         if not fixed and ch in "*/":
             prev = out[-1] if out else ""
             nxt = flat[j + 1][0] if j + 1 < len(flat) else ""
-            if prev in ("*", "/") or nxt in ("*", "/"):
+            # '**/', '/***/' and '//*' are legal (a '*' before the closing delimiter, a '/' before a nested opener);
+            # only the pairs '/*' and '*/' would create or destroy a delimiter
+            if (prev == "/" and ch == "*") or (prev == "*" and ch == "/") or (ch == "/" and nxt == "*") or (ch == "*" and nxt == "/"):
                 ch = "x"
         out.append(ch)
     return "".join(out)
